@@ -385,24 +385,35 @@ structure Iter where
 
 def execFuel : Nat := 20000
 
+/-- what the iteration starting in `s` pulls -/
+def pullOf (s : State) : Pulled := pull (parserOf s) (s.inp.length + 1) [] s.inp
+
+/-- the state after the pull: the descriptor stands right after the pulled text -/
+def afterPull (s : State) : State :=
+  { s with inp := (pullOf s).rest, echo := echoOf s (pullOf s).text,
+           pos := if s.shared then s.pos + (pullOf s).text.length else s.pos }
+
+/-- the state in which the command of the iteration starts -/
+def atExec (s : State) : State :=
+  { afterPull s with hitEof := s.hitEof || (pullOf s).sawEof }
+
+def iterOf (s : State) : Iter :=
+  { start := s.inp, text := (pullOf s).text, atExec := (pullOf s).rest, posStart := s.pos,
+    posAtExec := (afterPull s).pos }
+
 /-- The read-eval loop.  Each iteration starts with an empty lexer buffer (`flush`: nothing is pending
     because the previous command line ended with the last pulled line), re-reads mode and aliases,
     pulls exactly one command line, and runs it before anything else is pulled. -/
 def loop : Nat → State → List Iter → State × Outcome × List Iter
   | 0, s, log => (s, .outOfFuel, log)
   | n + 1, s, log =>
-    let p := pull (parserOf s) (s.inp.length + 1) [] s.inp
-    let s1 : State := { s with inp := p.rest, echo := echoOf s p.text,
-                               pos := if s.shared then s.pos + p.text.length else s.pos }
-    let log := log ++ [{ start := s.inp, text := p.text, atExec := p.rest, posStart := s.pos,
-                         posAtExec := s1.pos }]
-    match p.res with
-    | .none => (s1, .eof, log)
-    | .error => ({ s1 with status := 2 }, .syntaxError, log)
-    | .incomplete => ({ s1 with status := 2 }, .syntaxError, log)
+    match (pullOf s).res with
+    | .none => (afterPull s, .eof, log ++ [iterOf s])
+    | .error => ({ afterPull s with status := 2 }, .syntaxError, log ++ [iterOf s])
+    | .incomplete => ({ afterPull s with status := 2 }, .syntaxError, log ++ [iterOf s])
     | .ok cs bodies =>
-      let r := runK bodies execFuel (cmds cs) { s1 with hitEof := s1.hitEof || p.sawEof }
-      if r.2 then loop n r.1 log else (r.1, .outOfFuel, log)
+      let r := runK bodies execFuel (cmds cs) (atExec s)
+      if r.2 then loop n r.1 (log ++ [iterOf s]) else (r.1, .outOfFuel, log ++ [iterOf s])
 
 def initState (shared : Bool) (script data : List Byte) : State :=
   { inp := script, shared, data }
